@@ -18,9 +18,6 @@ def build(tier, seed):
       known=("range-nan", r"assertion failed: n == 0.0"))
     S("O13.4 total, no panic", "c13_o4_total_nopanic", "all f64 incl. NaN, +-inf, reversed, equal",
       "from_min_max is total and rejects exactly !(min<=max); normalize on an accepted range never panics")
-    if tier == "thorough":
-        S("O13.1 unit interval (bit-blasted)", "c13_o1_unit_interval", "all finite f64 min<max, all finite values",
-          "normalize(v) is in [0,1] and never NaN", timeout=6000)
     S("O13.5 absent attribute", "c13_o5_absent_attribute", "prototype without colour/intensity", "no range is selected")
     n = 0
     for tk in range(4):
@@ -40,7 +37,8 @@ FUNCTIONS = ["pc_reader_simple::Range::{from_min_max,normalize,from_limits,from_
              "red_from_pointcloud,green_from_pointcloud,blue_from_pointcloud}"]
 ASSUME = [
     "alloc::fmt::format stubbed (error message text is not part of the property)",
-    "O13.3 tolerance: 1 ulp of f32, range width >= 1e-300 (narrower ranges are only required to satisfy O13.1/O13.2/endpoints)",
+    "NOT decided: the value claims that need the RESULT of a 64-bit float division for all operands ([0,1], endpoints, monotone, formula within 1 ulp, integer-typed ranges): CBMC > 25 min, "
+    "z3/cvc5 QF_FP > 5 min on the smallest, and also with division axiomatised (mirsym/spec_range.py, kept for reference) z3 times out at 300-600 s per query; harnesses for them exist in kani/inject/c13_simple.rs but are not run",
     "O13.5 instances: limit values and type bounds restricted to |x| < 1e30 / 2^40 to keep float conversion queries small; kinds enumerated",
     "normalisation switch off (value as f32) and the attribute-absent => 0 path live in PointCloudReaderSimple::normalize_value and are checked under C05",
     "CBMC float semantics = IEEE-754 round-to-nearest-even (bit-blasted)",
